@@ -160,6 +160,10 @@ class MarkerNode(SyntaxNode):
     def r(self):
         return self.__class__.__name__
 
+    def query(self, parser):
+        # A marker that survived filtering contributes nothing to the query
+        return None
+
 
 class Whitespace(MarkerNode):
     """Abstract syntax tree node for ignorable whitespace.
